@@ -30,7 +30,9 @@ type Mode struct {
 	MaxSteps    int
 	MaxHtlcs    int
 	// Hooks for other engines (C04/C05): called with the live sim.
+	OnPreRevoke func(s *Sim, side int)
 	OnRevoke func(s *Sim, side int, revokedHeight uint64, revokedTx []byte, snap *RevokedSnap)
+	OnFinish func(s *Sim)
 	OnEvent  func(s *Sim)
 }
 
@@ -374,6 +376,9 @@ func (s *Sim) opRevoke(side int, injectFail bool) bool {
 	p := s.P[side]
 	// what the breacher would broadcast: the commitment about to be revoked
 	old := p.Chan.State().LocalCommitment
+	if s.Mode.OnPreRevoke != nil && !injectFail {
+		s.Mode.OnPreRevoke(s, side)
+	}
 	if injectFail {
 		p.KV.FailWrite(1)
 	}
